@@ -171,6 +171,34 @@ def _qd_one(repo, col, ce, mp):
     qn = ce.qualname
     loops = [n for n in walk_no_nested(ce.node) if isinstance(n, ast.For)]
     if not loops:
+        # the scan written as `return not any(in_cycle(parent(m)) for m in self)` / `all(not in_cycle(..) for m in self)`
+        for r in [x for x in walk_no_nested(ce.node) if isinstance(x, ast.Return) and x.value is not None]:
+            v = r.value
+            neg = False
+            if isinstance(v, ast.UnaryOp) and isinstance(v.op, ast.Not):
+                neg, v = True, v.operand
+            if isinstance(v, ast.Call) and dotted(v.func) in ("any", "all") and len(v.args) == 1 and isinstance(v.args[0], (ast.GeneratorExp, ast.ListComp)) and len(v.args[0].generators) == 1:
+                g = v.args[0].generators[0]
+                elt = v.args[0].elt
+                eneg = False
+                if isinstance(elt, ast.UnaryOp) and isinstance(elt.op, ast.Not):
+                    eneg, elt = True, elt.operand
+                is_any = dotted(v.func) == "any"
+                if isinstance(elt, ast.Call) and norm(elt.func) == "self.engine.in_cycle":
+                    # exhausted  <=>  no queued message has its parent in the cycle
+                    shape_ok = (is_any and neg and not eneg) or (not is_any and not neg and eneg)
+                    col.decide("QD", m, r, norm(g.iter) in ("self", "iter(self)", "list(self)") and not g.ifs, "cycle_exhausted scans every queued message",
+                               "%s scans %s%s instead of all queued messages: a message inside the cycle that is not scanned lets the cycle be closed while work for it is still pending"
+                               % (qn, norm(g.iter), " if ..." if g.ifs else ""), construct="def cycle_exhausted: scanned collection", function=qn)
+                    col.decide("QD", m, r, shape_ok, "a queued message inside the cycle means the cycle is not exhausted",
+                               "%s must answer True exactly when NO queued message has its parent in the cycle; found %s" % (qn, norm(r.value)[:80]), construct="def cycle_exhausted: scan body", function=qn)
+                    allp = dtable.extract(ce.node, opaque_loops=True)
+                    noroot = [p_ for p_ in allp if any(s_ == "self.engine.cycle_root is None" and t_ for s_, t_, _ in p_.conds)]
+                    col.decide("QD", m, ce.node, bool(noroot) and all(p_.end == "return" and p_.value == "False" for p_ in noroot), "no cycle root -> not exhausted",
+                               "cycle_exhausted must answer False when there is no cycle root", construct="def cycle_exhausted: outcomes", function=qn)
+                    if mp is not None:
+                        _qd_parent(col, m, mp)
+                    return
         col.fail("QD", m, ce.node, "%s decides cycle exhaustion without scanning the queued messages: in an any-order queue a message inside the cycle can sit anywhere, so looking at "
                  "one message (the top) closes the cycle while work for it is still pending - derivations are lost or the engine ends in InvalidEngineState" % qn,
                  construct="def %s: no scan of the queue" % qn, function=qn)
@@ -210,6 +238,10 @@ def _qd_one(repo, col, ce, mp):
                construct="def cycle_exhausted: outcomes", function="MessageAnyOrder.cycle_exhausted")
     if mp is None:
         return
+    _qd_parent(col, m, mp)
+
+
+def _qd_parent(col, m, mp):
     msg = mp.params[1]
     t = {}
     for p_ in dtable.extract(mp.node):
